@@ -174,7 +174,12 @@ class Resolver:
                     t = self.anno(fi.module, n.annotation)
                     if t == UNK and n.value is not None:
                         t = self.type_of(n.value, fi, env)
+                    if isinstance(n.value, ast.Dict) and self._bound_once(node, n.target.id):
+                        t = ("dictlit", fi.module, n.value)        # a local dispatch table
                     env[n.target.id] = t
+                elif isinstance(n, ast.Assign) and len(n.targets) == 1 and isinstance(n.targets[0], ast.Name) and isinstance(n.value, ast.Dict) and \
+                        n.value.keys and self._bound_once(node, n.targets[0].id):
+                    env[n.targets[0].id] = ("dictlit", fi.module, n.value)
                 elif isinstance(n, ast.Assign):
                     t = self.type_of(n.value, fi, env)
                     for tg in n.targets:
@@ -209,6 +214,20 @@ class Resolver:
                         self.m.functions[q] = FuncInfo(q, n.name, fi.module, None, n, [])
                         self.m.functions[q].parent = fi.qualname
         return env
+
+    @staticmethod
+    def _bound_once(func_node: ast.AST, name: str) -> bool:
+        """the local is bound exactly once and never used as the target of an item store / a mutating call"""
+        stores = [x for x in walk_no_nested(func_node) if isinstance(x, ast.Name) and x.id == name and isinstance(x.ctx, (ast.Store, ast.Del))]
+        if len(stores) != 1:
+            return False
+        for x in walk_no_nested(func_node):
+            if isinstance(x, ast.Subscript) and isinstance(x.ctx, (ast.Store, ast.Del)) and isinstance(x.value, ast.Name) and x.value.id == name:
+                return False
+            if isinstance(x, ast.Call) and isinstance(x.func, ast.Attribute) and isinstance(x.func.value, ast.Name) and x.func.value.id == name and \
+                    x.func.attr in ("update", "pop", "popitem", "clear", "setdefault", "__setitem__", "__delitem__"):
+                return False
+        return True
 
     def _bind(self, tg: ast.expr, t: tuple, env: Dict[str, tuple]) -> None:
         if isinstance(tg, ast.Name):
@@ -281,6 +300,8 @@ class Resolver:
                 return bt[1]
             if bt[0] == "dict":
                 return bt[2]
+            if bt[0] == "dictlit":
+                return ("dictget", bt)
             if bt[0] == "tuple":
                 if isinstance(e.slice, ast.Constant) and isinstance(e.slice.value, int) and e.slice.value < len(bt[1]):
                     return bt[1][e.slice.value]
@@ -526,6 +547,8 @@ class Resolver:
                         return at[3][2] if at[3][2] != UNK else d
                     return ("opt", at[3][2])
                 if name == "get" and base == "dictlit":
+                    if len(e.args) >= 2 and not (isinstance(e.args[1], ast.Constant) and e.args[1].value is None):
+                        return ("dictget", at[3], e.args[1])
                     return ("dictget", at[3])
                 if name == "items" and base == "dict":
                     return ("dictitems", at[3][1], at[3][2])
@@ -647,6 +670,10 @@ class Resolver:
         self_cls: concrete class of `self`/`cls` when known (context-sensitive dispatch)."""
         env = self.env(fi)
         f = e.func
+        if isinstance(f, (ast.Subscript, ast.Call)):
+            t0 = self.type_of(f, fi, env)
+            if t0[0] == "dictget":
+                return self._dictlit_funcs(t0[1], t0[2] if len(t0) > 2 else None, fi)
         if isinstance(f, ast.Name):
             n = f.id
             if n in env:
@@ -707,14 +734,18 @@ class Resolver:
             return ("unknown", norm(e))
         return ("unknown", norm(e))
 
-    def _dictlit_funcs(self, t):
+    def _dictlit_funcs(self, t, default: Optional[ast.expr] = None, fi: Optional[FuncInfo] = None):
         _, mod, d = t
         fis = []
-        for v in d.values:
-            if isinstance(v, ast.Name):
-                q = self.m.resolve_name(mod, v.id)
+        ctors = []
+        for v in list(d.values) + ([default] if default is not None else []):
+            if isinstance(v, (ast.Name, ast.Attribute)):
+                q = self.m.resolve_name(mod, norm(v))
                 if q in self.m.functions:
                     fis.append(self.m.functions[q])
+                    continue
+                if q in self.m.classes:
+                    ctors.append(q)
                     continue
             if isinstance(v, ast.Lambda):
                 q = f"{mod}.<lambda>@{norm(v)[:40]}"
@@ -723,6 +754,8 @@ class Resolver:
                 fis.append(self.m.functions[q])
                 continue
             return ("unknown", norm(v))
+        if ctors:
+            return ("multi", [("ctor", q) for q in ctors] + ([("funcs", fis, None)] if fis else []))
         return ("funcs", fis, None)
 
     def _method_targets(self, at, recv, self_cls, cha_all: bool):
